@@ -124,7 +124,7 @@ pub fn run(ctx: &mut Ctx) {
     crate::props::run_regressions(ctx, "C03");
 
     ctx.layer("exhaustive");
-    let dsets: Vec<DS> = { let mut v = dsets_up_to(2, t.pick(6, 7)); v.extend(dsets_up_to(3, t.pick(4, 5))); v.extend(dsets_up_to(1, 6)); v };
+    let dsets: Vec<DS> = { let mut v = dsets_up_to(2, t.pick(6, 8)); v.extend(dsets_up_to(3, t.pick(4, 6))); v.extend(dsets_up_to(1, 6)); v };
     let mut syms: Vec<DS> = vec![];
     let mut complete = true;
     for ds in &dsets {
@@ -132,7 +132,7 @@ pub fn run(ctx: &mut Ctx) {
         complete &= all;
         syms.extend(s);
     }
-    let note = format!("all branching assignments v <= 3 on all {} connected D-sets (dim 2 size <= {}, dim 3 size <= {}, dim 1 size <= 6){}", dsets.len(), t.pick(6, 7), t.pick(4, 5), if complete { "" } else { ", capped per D-set" });
+    let note = format!("all branching assignments v <= 3 on all {} connected D-sets (dim 2 size <= {}, dim 3 size <= {}, dim 1 size <= 6){}", dsets.len(), t.pick(6, 8), t.pick(4, 6), if complete { "" } else { ", capped per D-set" });
     // fixed renumberings: reversal, rotation, one transposition
     let cases: Vec<Renum> = syms
         .iter()
@@ -185,7 +185,7 @@ pub fn run(ctx: &mut Ctx) {
     ctx.run_par(&SUB_PAIR, pairs, None);
 
     ctx.layer("random");
-    let n = t.pick(20_000u32, 400_000u32);
+    let n = t.pick(20_000u32, 2_000_000u32);
     let sw = || prop::collection::vec((any::<u32>(), any::<u32>()), 0..10);
     let pool = std::sync::Arc::new(dsets);
     {
